@@ -1,7 +1,7 @@
 """C17 (partial): R-IDX, R-CAP, R-EOF, R-REC, R-DIV, R-NULL, T-TBL, T-DISP over everything reachable from naken_util."""
 from nk import report
 from nk.interval import Analyzer
-from rules import prog as rprog, wrap, idx, term, div, tbl, null, disp
+from rules import strs, prog as rprog, wrap, idx, term, div, tbl, null, disp
 from . import common
 
 EXPLANATION = (
@@ -10,7 +10,7 @@ EXPLANATION = (
     'disassembler and simulator entry: R-IDX (fixed-array subscripts), R-CAP, R-EOF (reader loops leave at end of '
     'input), R-REC, R-DIV, R-NULL, T-TBL (table sentinels), T-DISP (every accepted command / detected file type is '
     'dispatched). R-PROG: every range loop of the range printers and the page walk of UtilContext::disasm advance on every path. '
-    'WRAP-LOOP: a 32-bit address counter compared with an inclusive upper bound cannot wrap (the 56 range printers are known findings). Not decided: file-supplied counts and offsets used as pointer offsets into the file image '
+    'WRAP-LOOP: a 32-bit address counter compared with an inclusive upper bound cannot wrap (the 56 range printers are known findings). R-STR: as in C16, over the disassemblers and file readers (about 200 of 600 copies are proven, the rest not decided). Not decided: file-supplied counts and offsets used as pointer offsets into the file image '
     '(R-TAINT not armed), heap use.')
 
 
@@ -27,6 +27,7 @@ def run(tier, t0):
                term.rec(prog, cg, [common.UTIL_MAIN], member_scope=lambda f: f.file.startswith(('fileio/', 'common/', 'disasm/', 'main/naken_util')) or f.file in ('core/UtilContext.cpp', 'core/Linker.cpp', 'core/imports_obj.cpp', 'core/imports_ar.cpp')), div.div(prog, scope, 40, ctx=dctx), null.null_a(prog, scope, 20),
                tbl.ttbl(prog), disp.disp(prog), idx.ptr_into_array(prog, scope, an),
                rprog.run(prog, cg),
+               strs.strs(prog, cg, scope, 100),
                wrap.wrap_loops(prog, lambda f: f.file.startswith(('disasm/', 'core/UtilContext', 'main/naken_util', 'fileio/')), an, 40, strict_fns=common.range_printers())]
     return report.finish('C17', tier, results, EXPLANATION,
                          ['the invariants listed for not-decided subscripts were read from the code and replayed under ASan '
